@@ -401,6 +401,16 @@ class DiffusionModel(GenericModel):
             self.compositionProfile.buildProfile(self.elements, self.x, self.z)
             self.boundaryConditions.setupDefaults(self.elements)
             self.boundaryConditions.applyBoundaryConditionsToInitialProfile(self.elements, self.x, self.z)
+        else:
+            #Boundary conditions can be changed between solve calls, a fixed composition has to be on the profile before the next solve
+            #    (with the same adjustment for the minimum composition as for the initial profile)
+            xBC = np.array(self.x)
+            self.boundaryConditions.setupDefaults(self.elements)
+            self.boundaryConditions.applyBoundaryConditionsToInitialProfile(self.elements, xBC, self.z)
+            changed = xBC != self.x
+            xBC[xBC > self.constraints.minComposition] -= len(self.allElements)*self.constraints.minComposition
+            xBC[xBC < self.constraints.minComposition] = self.constraints.minComposition
+            self.x[changed] = xBC[changed]
 
         xsum = np.sum(self.x, axis=0)
         if any(xsum > 1):
